@@ -1,7 +1,8 @@
 import Ypv.Props.C19
 #print axioms Ypv.C19.rotate_rekeys_partial
 #print axioms Ypv.C19.rotate_frame
-#print axioms Ypv.C19.rotate_once_and_shared_partial
+#print axioms Ypv.C19.rotate_once_and_shared
+#print axioms Ypv.C19.alias_takes_recorded_image
 #print axioms Ypv.C19.marker_iff
 #print axioms Ypv.C19.no_secret_no_io
 #print axioms Ypv.C19.good_secret
